@@ -33,6 +33,8 @@ ALSO = {
     'rxsci/state/memory_store.py': ['C14', 'C02', 'C04'], 'rxsci/operators/tee_map.py': ['C08', 'C01', 'C13'],
     'rxsci/data/batch.py': ['C10', 'C20'], 'rxsci/io/file.py': ['C18', 'C19'],
     'rxsci/operators/count.py': ['C09', 'C01'], 'rxsci/operators/do_action.py': ['C01', 'C11', 'C05'],
+    'rxsci/data/roll.py': ['C13'], 'rxsci/data/split.py': ['C13'], 'rxsci/data/time_split.py': ['C13'],
+    'rxsci/operators/group_by.py': ['C13'], 'rxsci/container/parquet.py': ['C01'],
     'rxsci/framing/line.py': ['C11'], 'rxsci/framing/length_prefix.py': ['C11'],
     'rxsci/data/to_deque.py': ['C10'], 'rxsci/data/sort.py': ['C10'], 'rxsci/mux/muxconnectable.py': ['C08'],
 }
